@@ -1137,9 +1137,9 @@ class Exec:
         if v is None:
             # discriminant of a never-assigned local: only occurs feeding `assume` in optimised std MIR
             return self.fresh('uninit_discr', w)
-        adt = self.p.adt(ty)
         if isinstance(v, CoroV):
             return BV(v.state, w)
+        adt = self.p.adt(ty)
         if isinstance(v, SymEnum):
             r = BV(int(adt['variants'][v.alts[-1][1]]['discr']), w)
             for c, d, _ in reversed(v.alts[:-1]):
